@@ -247,6 +247,88 @@ func run(r *mon.Run) {
 		}
 	}
 
+	// attribute names of every kind a Go string can hold. Names that are valid text must be carried; names the block
+	// cannot carry as CBOR text (strings that are not UTF-8) may be refused - but a signing operation that reports
+	// success has produced a well-formed block in which every signature verifies, whatever the names were
+	if r.Shard == 0 {
+		g := r.Rand("attribute-names", 0)
+		type nameCase struct {
+			label string
+			names []string
+			valid bool
+		}
+		cases := []nameCase{
+			{"empty", []string{""}, true}, {"nul", []string{"\x00"}, true}, {"two-byte", []string{"caf\u00e9"}, true}, {"astral", []string{"\U0001F600"}, true},
+			{"replacement-char", []string{"\uFFFD"}, true}, {"near-miss", []string{"ed25519PublicKex", "ed25519PublicKe", "ed25519PublicKeyy"}, true},
+			{"long", []string{strings.Repeat("n", 300)}, true},
+			{"lone-ff", []string{"\xff"}, false}, {"latin1", []string{"caf\xe9"}, false}, {"overlong", []string{"a\xc0\x80"}, false}, {"surrogate", []string{"\xed\xa0\x80"}, false},
+			{"truncated-sequence", []string{"ok\xe2\x82"}, false}, {"two-invalid", []string{"\xff", "\xfe"}, false}, {"invalid-and-valid", []string{"z", "\xff", "a"}, false},
+		}
+		for ci, c := range cases {
+			for nops := 1; nops <= 2; nops++ {
+				orig := bundleFile(g, 100, nil)
+				hash := sha512.Sum512(orig)
+				ib := &integrityblock.IntegrityBlock{Magic: integrityblock.IntegrityBlockMagic, Version: integrityblock.VersionB1, SignatureStack: []*integrityblock.IntegritySignature{}}
+				var accepted []ed25519.PublicKey
+				outcome := "carried"
+				key := fmt.Sprintf("ib:attr-names:%s:%d", c.label, nops)
+				bad := false
+				for k := 0; k < nops && !bad; k++ {
+					pub, priv := gen.EdKey(g)
+					attrs := integrityblock.GenerateSignatureAttributesWithPublicKey(pub)
+					if k == nops-1 { // (the odd names go into the newest signature; an earlier one is ordinary)
+						for _, n := range c.names {
+							attrs[n] = []byte("v:" + c.label)
+						}
+					}
+					ibs := &integrityblock.IntegrityBlockSigner{SigningStrategy: strategy{kind: "honest", priv: priv}, WebBundleHash: hash[:], IntegrityBlock: ib}
+					before := len(ib.SignatureStack)
+					var serr error
+					p, pv := r.Call(key, nil, func() { serr = ibs.SignAndAddNewSignature(pub, attrs) })
+					switch {
+					case p:
+						bad = true
+						r.Violation(key+":panic", fmt.Sprintf("SignAndAddNewSignature panicked on the attribute names %q: %v", c.names, pv), nil)
+					case serr != nil && (c.valid || k < nops-1):
+						bad = true
+						r.Violation(key+":refused", fmt.Sprintf("honest signing with the valid attribute names %q failed: %v", c.names, serr), nil)
+					case serr != nil && len(ib.SignatureStack) != before:
+						bad = true
+						r.Violation(key+":refused-but-added", fmt.Sprintf("signing with the attribute names %q failed (%v) and still changed the signature stack %d -> %d", c.names, serr, before, len(ib.SignatureStack)), nil)
+					case serr != nil:
+						outcome = "refused"
+					default:
+						accepted = append(accepted, pub)
+					}
+				}
+				if bad {
+					r.Eval("attr-names:VIOLATION")
+					continue
+				}
+				blockBytes, cerr := ib.CborBytes()
+				if cerr != nil {
+					if outcome == "carried" {
+						r.Violation(key+":cbor", fmt.Sprintf("every signing operation reported success, CborBytes then fails: %v (attribute names %q)", cerr, c.names), nil)
+					}
+					r.Eval("attr-names:cbor-error")
+					continue
+				}
+				audit(r, key, "attr-names", append(append([]byte{}, blockBytes...), orig...), orig, accepted, fmt.Sprintf("names=%q ops=%d", c.names, nops))
+				if outcome == "carried" {
+					if blk, err := rib.Parse(blockBytes); err == nil && len(blk.Signatures) > 0 {
+						for _, n := range c.names {
+							if string(blk.Signatures[0].Attrs[n]) != "v:"+c.label {
+								r.Violation(key+":lost", fmt.Sprintf("attribute %q is not in the newest signature's attribute map of the block", n), nil)
+							}
+						}
+					}
+				}
+				r.Eval("attr-names:" + outcome)
+				r.Distinct(fmt.Sprintf("attr-names|%d|%d|%s", ci, nops, outcome))
+			}
+		}
+	}
+
 	// the exported verification helper the signer is built on (and other programs call directly): true exactly for the
 	// signature of these bytes under this key, and its two results never contradict each other
 	if r.Shard == 0 {
